@@ -50,31 +50,25 @@ theorem C15_true (interp : Nat → Val → Option Nat) (s dest d' : Stk) (hs : s
     congr 1
     apply List.Sublist.eq_of_length h1
     -- the generated success test compares lengths
-    unfold Gen.transfer_ok at hok
     have hsmall' : SmallLen (List.foldl (fun d v => push interp d [v]) dest s.xs).xs.length := h4.small
     rw [ulen_eq _ hsmall', ulen_eq _ hd.small, ulen_eq _ hs.small, h2] at hok
-    have hsm2 := hsm
-    unfold SmallLen at hsm2; rw [pow62] at hsm2
-    have e : wrap64 ((dest.xs.length : Int) + (s.xs.length : Int)) = (dest.xs.length : Int) + (s.xs.length : Int) := by
-      rw [wrap64_eq] <;> omega
-    simp only [e, List.length_append, beq_iff_eq] at hok
+    have hs3 : IsLen ((dest.xs ++ sub).length : Int) := by rw [← h2]; exact small_isLen hsmall'
+    simp only [GenSem.transfer_ok, hs3, small_isLen hd.small, small_isLen hs.small,
+      decide_eq_true_eq] at hok
+    simp only [List.length_append] at hok
     omega
 
 /-- **C15 (no room ⇒ false, destination untouched).** -/
 theorem C15_nofit (interp : Nat → Val → Option Nat) (s dest : Stk) (hs : s.WF) (hd : dest.WF)
     (hcap : dest.cfg.cap ≠ 0) (hfree : dest.cfg.cap - dest.rawLen < s.xs.length) :
     s.transfer interp dest = (dest, false) := by
-  unfold transfer Gen.transfer_hascap Gen.transfer_nofit
+  unfold transfer
   rw [ulen_eq s hs.small]
   rcases hd.capOk with h0 | ⟨h1, h2, h3⟩
   · exact absurd h0 hcap
-  · have hsm := hd.small
-    unfold SmallLen at hsm; rw [pow62] at hsm
-    unfold rawLen at *
-    have e : wrap64 (dest.cfg.cap - ((dest.xs.length : Int) + 1)) = dest.cfg.cap - ((dest.xs.length : Int) + 1) := by
-      rw [wrap64_eq] <;> omega
-    have hc : dest.cfg.cap > 0 := by omega
-    simp [e, hc, hfree]
+  · have hc : 0 < dest.cfg.cap := by omega
+    simp only [GenSem.transfer_hascap, GenSem.transfer_nofit, small_isLen hs.small, hd.cap_isLen, hd.rawLen_isRawLen,
+      hc, hfree, decide_true, Bool.and_self, ↓reduceIte]
 
 /-- the source is a value: `transfer` returns only the destination (nothing else can change) -/
 theorem C15_src (interp : Nat → Val → Option Nat) (s dest : Stk) :
